@@ -46,6 +46,10 @@ pub fn run(args: &Args) -> serde_json::Value {
                 "C03,C07"
             } else if what.starts_with("get_n()") || what.starts_with("get_bond_count") {
                 "C03,C11"
+            } else if what.starts_with("call panicked") {
+                // a public update call that does not complete (the library's own integrity assertions
+                // are active in this build) leaves no consistent configuration behind
+                "C03,C06,C11"
             } else {
                 "C03"
             };
